@@ -80,31 +80,38 @@ StoredAt(t, k, id) ==
 \* what subscriber s holds for id just before write k: the last thing it was really handed,
 \* else its seed.  An updates-only subscriber that has not been handed anything yet holds
 \* nothing this check knows of (known = FALSE): nothing is asserted for it until then.
+\* (everything a subscriber is handed has gone through its read mask: Proj)
+SubMask(t, s) == [nil |-> t.subs[s].mask.nil, fs |-> t.subs[s].mask.fs]
 Held(t, s, k, id) ==
   LET at == t.subs[s].at
       D  == { j \in (at + 1)..(k - 1) : t.writes[j].id = id /\ t.dl[s][j].n > 0 } IN
-  IF D # {} THEN LET j == MaxOf(D) IN [known |-> TRUE, has |-> t.writes[j].op # "del", v |-> t.writes[j].v]
+  IF D # {} THEN LET j == MaxOf(D) IN [known |-> TRUE, has |-> t.writes[j].op # "del", v |-> Proj(t.writes[j].v, SubMask(t, s))]
   ELSE IF t.subs[s].uo THEN [known |-> FALSE, has |-> FALSE, v |-> Empty("T")]
-  ELSE LET st == StoredAt(t, at, id) IN [known |-> TRUE, has |-> st.has, v |-> st.v]
+  ELSE LET st == StoredAt(t, at, id) IN [known |-> TRUE, has |-> st.has, v |-> Proj(st.v, SubMask(t, s))]
 
 StepFails(t, s, k) ==
   LET w == t.writes[k]  d == t.dl[s][k]
       h  == Held(t, s, k, w.id)
-      st == StoredAt(t, k - 1, w.id)
+      raw == StoredAt(t, k - 1, w.id)
+      st == [has |-> raw.has, v |-> Proj(raw.v, SubMask(t, s))]      \* previously stored value as this subscriber sees it
+      nv == Proj(w.v, SubMask(t, s))                                 \* the written value as this subscriber sees it
       put == w.op # "del"
       event == put \/ st.has                       \* deleting an absent item publishes nothing
-      equiv == h.has /\ put /\ EqualM(t.terms, h.v, w.v)
+      equiv == h.has /\ put /\ EqualM(t.terms, h.v, nv)
       \* named deviations, to classify a failure
       silent == d.n = 0
-      dA == silent = (h.has /\ put /\ EqualMZ(t.terms, h.v, w.v, FALSE))     \* held value, unset zero scalars skipped
-      dB == silent = (st.has /\ put /\ EqualM(t.terms, st.v, w.v))           \* previously stored value instead of held
-      dC == silent = (st.has /\ put /\ EqualMZ(t.terms, st.v, w.v, FALSE))   \* both
+      dA == silent = (h.has /\ put /\ EqualMZ(t.terms, h.v, nv, FALSE))       \* held value, unset zero scalars skipped
+      dB == silent = (st.has /\ put /\ EqualM(t.terms, st.v, nv))            \* previously stored value instead of held
+      dC == silent = (st.has /\ put /\ EqualMZ(t.terms, st.v, nv, FALSE))    \* both
+      dD == silent = (raw.has /\ put /\ EqualM(t.terms, raw.v, nv))          \* a value that has not gone through the read mask
       same == t.res = "val" \/ (h.has = st.has /\ h.v = st.v)                \* held = stored: B and C say nothing
-      class == IF same THEN (IF dA THEN "unset-zero-scalar-not-compared-by-tolerance" ELSE "other")
+      class == IF same THEN (IF dA THEN "unset-zero-scalar-not-compared-by-tolerance"
+                             ELSE IF dD THEN "compared-with-unfiltered-value" ELSE "other")
                ELSE IF dA /\ ~dB THEN "unset-zero-scalar-not-compared-by-tolerance"
                ELSE IF dB /\ ~dA THEN "compared-with-stored-value-not-held-value"
                ELSE IF dA /\ dB THEN "unset-zero-scalar-or-compared-with-stored-value"
                ELSE IF dC THEN "compared-with-stored-value-and-unset-zero-scalar"
+               ELSE IF dD THEN "compared-with-unfiltered-value"
                ELSE "other"
   IN
   IF k <= t.subs[s].at THEN {}
